@@ -58,6 +58,21 @@ def cmd_one(argv):
     return 0
 
 
+def cmd_runjson(argv):
+    """internal: one run, canonical results as JSON on stdout (used to confirm a hash-seed digest mismatch tolerantly)"""
+    from .seed import run_seed
+    from . import canon
+    prop, i = argv[0], int(argv[1])
+    vseed = int(os.environ.get("VERIF_SEED", "0"))
+    load_ops(prop)
+    from . import isolate
+    plan = gen_plan(prop, run_seed(vseed, "", prop, i), json.loads(os.environ.get("VERIF_OVERRIDES", "null")))
+    res = isolate.execute(plan, want_refs=False)
+    out = [[r["id"], r["status"], canon.enc(r.get("result"))] for r in res["records"]]
+    sys.stdout.write("RUNJSON " + json.dumps(out) + "\n")
+    return 0
+
+
 def main(argv):
     if not argv:
         print(__doc__)
@@ -65,5 +80,7 @@ def main(argv):
     cmd, rest = argv[0], argv[1:]
     if cmd == "one":
         return cmd_one(rest)
+    if cmd == "runjson":
+        return cmd_runjson(rest)
     from . import driver
     return driver.main(cmd, rest)
